@@ -168,7 +168,7 @@ def check(P, rep):
         for d in deps:
             args = tuple_items(core(d.args)) or []
             m = args[1] if len(args) == 4 else ('u',)
-            okm = all(variant_name(a) == 'None' or (variant_name(a) == 'Some' and core(a[3][0]) in (('self',), minter)) for a in alts(m))
+            okm = all(variant_name(a) == 'None' or (variant_name(a) == 'Some' and core(a[3][0]) in (('self',), minter)) or core(a) == minter for a in alts(m))
             rep.check(okm, 'C11.R6', 'deploy_interchain_token:initial-minter', 'the constructor\'s minter is none, the service (while it mints the supply) or the minter parameter', esite(g, d), fmt(m)[:200])
             rep.check(len(args) == 4 and core(args[3]) == meta, 'C11.R6', 'deploy_interchain_token:metadata', 'the requested metadata is passed to the token constructor', esite(g, d))
         adds = [e for e in state_effects(g) if e.kind == 'xcall' and e.method == 'add_minter']
